@@ -549,3 +549,68 @@ def const_eval_str(n):
     if n is not None and n.get("k") == "lit" and n.get("lk") == "str":
         return n["v"]
     return None
+
+
+# ------------------------------------------------------------------ helper inlining
+
+def inline_helpers(P, body, accept, depth=2, _k=[0]):
+    """deep copy of `body` in which every call to a workspace function accepted by `accept(callee_body)` is replaced by a block
+    `{ let <param_i> = <arg_i>; …; <callee body> }` (locals of the callee are renumbered so that they cannot clash).
+    Rules that reason about one function then also see code that a refactoring moved into a private helper."""
+    import copy
+
+    def renumber(n, off):
+        if isinstance(n, dict):
+            if "hid" in n and isinstance(n["hid"], int):
+                n["hid"] += off
+            for c_ in n.get("caps", ()) if isinstance(n.get("caps"), list) else ():
+                if isinstance(c_.get("hid"), int):
+                    c_["hid"] += off
+            for k_, v in n.items():
+                if k_ != "caps":
+                    renumber(v, off)
+        elif isinstance(n, list):
+            for v in n:
+                renumber(v, off)
+
+    def subst(n, d):
+        if isinstance(n, list):
+            return [subst(x, d) for x in n]
+        if not isinstance(n, dict):
+            return n
+        n = {k_: subst(v, d) for k_, v in n.items()}
+        if d > 0 and n.get("k") in ("call", "mcall") and not n.get("f"):
+            q = n.get("rvq") or n.get("q")
+            cb = P.fn(q) if q in P.by_q else None
+            if cb is not None and cb is not body and accept(cb):
+                _k[0] += 1
+                off = 1000000 * _k[0]
+                params = copy.deepcopy(cb.get("params", []))
+                cbody = copy.deepcopy(fn_block(cb))
+                renumber(params, off)
+                renumber(cbody, off)
+                args = ([n["recv"]] if n.get("k") == "mcall" else []) + list(n.get("a", ()))
+                if len(args) != len(params):
+                    return n
+                stmts = [{"k": "let", "pat": p_, "init": a_, "s": n.get("s"), "inl": q} for p_, a_ in zip(params, args)]
+                inner = subst(cbody, d - 1)
+                return {"k": "block", "stmts": stmts, "tail": inner, "t": n.get("t"), "s": n.get("s"), "inl": q}
+        return n
+    out = dict(body)
+    out["body"] = subst(copy.deepcopy(body["body"]), depth)
+    out["_inlined"] = True
+    return out
+
+
+def same_impl_helper(body):
+    """acceptance predicate: private (non-pub, non-trait) functions of the same type or module as `body`"""
+    adt = body.get("self_adt")
+    mod = body["q"].lstrip("<").rsplit("::", 1)[0]
+
+    def ok(cb):
+        if cb.get("trait_item") or cb.get("vis") == "pub":
+            return False
+        if adt and cb.get("self_adt") == adt:
+            return True
+        return cb["q"].rsplit("::", 1)[0] == mod
+    return ok
